@@ -10,6 +10,7 @@ DEDUCTIVE = [{'fid': 'odml/property.py::BaseProperty.clone', 'mode': 'heap'},
 # new_id is what clone() calls on every copied object: it must change the id and nothing else
 OBLIGATION_FILTER = {'include': [r'clone#', r'new_id#modifies', r'new_id#ensures', r'new_id#raises']}
 TIMEOUT_S = 20
+TRUSTED = ['BaseProperty.values setter (assumed contract for the call shape of clone)', 'copy.copy (modelled as shallow field-by-field copy)', 'uuid.uuid4/uuid.UUID (assumed contract)']
 REPLAY = 'heap'
 ASSUMPTIONS = HEAP_ASSUMPTIONS + [
     'BaseProperty.values setter: ASSUMED contract for the call shape of clone (no raise, stores a new list, writes only '
